@@ -29,7 +29,7 @@ BUDGET = {
 }
 TIME_NUMS = ('1', '5', '10', '100', '0.5', '0.1', '250', '3.5', '1000', '0.001', '72.33', '0.07233', '1e9', '1e20',
              '60', '0.25', '2.5', '33', '7', '1e-3', '12.5', '999', '1e-9', '0.3', '.75', '0.29', '1.1', '57', '0.57',
-             '4.35', '1e-6', '123456789', '0.007', '8.2', '16.1')
+             '4.35', '1e-6', '123456789', '0.007', '8.2', '16.1', '0', '0.0', '0e0', '1e-320')
 
 
 def expr_features(e):
